@@ -479,6 +479,57 @@ def rule_r8(repo, run):
         raise AnalysisError("C06.R8: no capsule dummy argument found in f_* statements")
 
 
+def rule_r9(repo, run, helpers):
+    R = run.rule("C06.R9", "release comes last: the wrapper body runs post_call (copy-out) before the final clause (release), "
+                           "and helpers that copy-and-free reach their release on every path")
+    wc = repo.module("wrapc")
+    f = wc.func("Wrapc.wrap_function")
+    chains = [a for a in ast.walk(f) if isinstance(a, ast.Assign) and pyflow.is_name(a.targets[0], "C_code")
+              and isinstance(a.value, ast.BinOp)]
+    if not chains:
+        raise AnalysisError("C06.R9: assembly of C_code not found in wrap_function")
+    for a in chains:
+        names = []
+
+        def leaves(e):
+            if isinstance(e, ast.BinOp) and isinstance(e.op, ast.Add):
+                leaves(e.left)
+                leaves(e.right)
+            elif isinstance(e, ast.Name):
+                names.append(e.id)
+        leaves(a.value)
+        want = ["pre_call", "call_code", "post_call", "final_code", "return_code"]
+        order = [names.index(w) if w in names else -1 for w in want]
+        run.check(R, "wrapc.Wrapc.wrap_function:C_code-order", -1 not in order and order == sorted(order),
+                  "the wrapper body is assembled as %s: declarations/conversions, the call, copy-out (post_call), release "
+                  "(final), return must come in this order - a result released in `final` before post_call is copied from "
+                  "freed memory" % " + ".join(names), wc.loc(a), sample=dict(order=names))
+    n = 0
+    for key, h in sorted(helpers.c.items()):
+        for k, text in tables.helper_sources(h):
+            code = templ.strip_c_comments("\n".join(templ.strip_layout(l) for l in text.split("\n")))
+            if "{C_memory_dtor_function}(" not in code:
+                continue
+            # per function body
+            for m_ in re.finditer(r"\)\s*\{+", code):
+                depth, j = 1, m_.end()
+                while j < len(code) and depth:
+                    depth += {"{": 1, "}": -1}.get(code[j], 0)
+                    j += 1
+                body = code[m_.end():j]
+                if "{C_memory_dtor_function}(" not in body or re.match(r"\s*\{", body):
+                    continue
+                n += 1
+                before = body[:body.rindex("{C_memory_dtor_function}(")]
+                early = re.search(r"\breturn\b", before)
+                run.check(R, "whelpers.CHelpers[%s].%s:release-reached#%d" % (key, k, n), early is None,
+                          "the helper can return before it calls the memory destructor: on that path the object the "
+                          "wrapper owns (e.g. the std::string of an empty result) is never released", "shroud/whelpers.py",
+                          sample=dict(helper=key))
+                break
+    run.floor(R, "copy-and-free helpers", n, 2)
+
+
 def run(repo, run, tier):
     tables.check_model_assumptions(repo)
     table = tables.StatementTable(repo, "statements", "fc_statements")
@@ -519,3 +570,4 @@ def run(repo, run, tier):
     rule_r6(repo, run)
     rule_r7(repo, run)
     rule_r8(repo, run)
+    rule_r9(repo, run, helpers)
